@@ -35,15 +35,18 @@ class C19(Check):
     fixed_prefix = 0
     real = ["DEMachineLearning.Classification", "DEMachineLearning.DataSet", "GridOperation.DensityEstimation", "StandardCombi",
             "SpatiallyAdaptiveSingleDimensions2 (dimension-wise learning)", "interpolation of the learned densities"]
-    stub = ["clocks (SimClock; _time_used is computed from time.time())", "global PRNGs seeded by the run (shuffle, validation sampling)"]
+    stub = ["clocks (SimClock; _time_used is computed from time.time())", "global PRNGs seeded by the run (shuffle, validation sampling)",
+            "size threshold moved through the guarded hook SPARSESPACE_VERIF_DE_THRESHOLD in a third of the runs (learning and evaluation then use the large-grid implementations)"]
     rule = ("schedule = labelled learning set (2-4 classes, 30-80 samples, 2-3 dims, optional unlabelled samples), split percentage, even / "
             "uneven split, shuffle, standard or dimension-wise learning with small levels, then <= 5 calls of __call__ / test_data / evaluate "
             "/ continue_dimension_wise_refinement with fresh data sets inside, partly outside or entirely outside the learned range, with or without unlabelled samples, or with a "
-            "deep copy of the object's own (already scaled) learning / testing piece. A state "
+            "deep copy of the object's own (already scaled) learning / testing piece. The arg-max is taken over densities the harness "
+            "interpolates itself (scipy, multilinear) from the published scheme, coefficients and 1-D point lists; the object's own density "
+            "answers must equal them. A state "
             "is (learning configuration class, sequence of call kinds with the numbers of classified samples); distinct_nontrivial counts "
             "distinct states after a call")
-    expected_probes = ["user_specified_range", "call_in_range", "call_partly_out", "all_out_refused", "unlabelled_set_aside", "test_data", "reclassified_earlier_data", "own_scaled_piece", "continued_learning", "same_array_evaluated_again"]
-    assumptions = ["ties between maximal densities accept any maximiser (tolerance 1e-12 relative on the densities)",
+    expected_probes = ["user_specified_range", "call_in_range", "call_partly_out", "all_out_refused", "unlabelled_set_aside", "test_data", "reclassified_earlier_data", "own_scaled_piece", "continued_learning", "same_array_evaluated_again", "large_grid_implementation_on_small_grids"]
+    assumptions = ["ties between maximal densities accept any maximiser (tolerance 1e-9 relative on the densities)",
                    "the in-range test is the library's documented one on the scaled coordinates: 0.0049 <= s <= 0.9951"]
 
     def setup(self):
@@ -61,6 +64,10 @@ class C19(Check):
                "rebalancing": r.random() < 0.3, "boundary": r.random() < 0.3,
                # user-specified data range (30 %): per dimension the data's own extreme or a wider bound
                "user_range": [[r.choice([0.0, 0.0, 0.1, 0.5]), r.choice([0.0, 0.0, 0.1, 0.5])] for _ in range(dim)] if r.random() < 0.3 else None}
+        # the size threshold between the small-grid and the large-grid implementations (200 points) is far above the grids of a
+        # short run: in a third of the runs it is moved through the guarded hook so that learning and every later
+        # evaluation go through the large-grid code on small grids
+        cfg["threshold"] = stream(rk, "threshold").choice([None, None, None, None, 1, 6, 20])
         o = stream(rk, "ops")
         ops = []
         for j in range(o.randint(1, 5)):
@@ -73,6 +80,8 @@ class C19(Check):
         c = s["config"]
         if c.get("user_range"):
             n = copy.deepcopy(s); n["config"]["user_range"] = None; yield n
+        if c.get("threshold") is not None:
+            n = copy.deepcopy(s); n["config"]["threshold"] = None; yield n
         for key, v in (("unl", 0.0), ("split", 1.0), ("shuffle", False), ("even", False), ("learn", "standard"), ("one_vs_others", False),
                        ("lmax", 2), ("k", 2), ("n", 30), ("masslumping", True), ("lambd", 0.0)):
             if c[key] != v:
@@ -82,9 +91,57 @@ class C19(Check):
                 n = copy.deepcopy(s); n["ops"][i][3] = 5; yield n
 
     def execute(self, sched, ctx):
+        import os
+        thr = sched["config"].get("threshold")
+        env_old = {k: os.environ.get(k) for k in ("SPARSESPACE_VERIF", "SPARSESPACE_VERIF_DE_THRESHOLD")}
+        try:
+            if thr is not None:
+                os.environ["SPARSESPACE_VERIF"] = "1"
+                os.environ["SPARSESPACE_VERIF_DE_THRESHOLD"] = str(thr)
+                ctx.fault("threshold_moved"); ctx.probe("large_grid_implementation_on_small_grids")
+            else:
+                os.environ.pop("SPARSESPACE_VERIF", None)
+                os.environ.pop("SPARSESPACE_VERIF_DE_THRESHOLD", None)
+            self._execute(sched, ctx)
+        finally:
+            for k, v in env_old.items():
+                if v is None:
+                    os.environ.pop(k, None)
+                else:
+                    os.environ[k] = v
+
+    @staticmethod
+    def independent_density(cf, pts, learn):
+        """density of one class at pts from what the learned object publishes - scheme, coefficients, per-grid nodal coefficients and
+        the grids' 1-D point lists - by scipy's multilinear interpolation; shares no code with the library's three interpolation paths"""
+        from scipy.interpolate import RegularGridInterpolator
+        pts = np.asarray(pts, dtype=float)
+        tot = np.zeros(len(pts))
+        for cg in cf.scheme:
+            lv = tuple(int(v) for v in cg.levelvector)
+            sv = np.asarray(cf.operation.surpluses[lv], dtype=float).ravel()
+            if learn == "standard":
+                P = [np.linspace(float(cf.a[d]), float(cf.b[d]), 2 ** lv[d] + 1) for d in range(len(lv))]
+            else:
+                P = [np.asarray(p, dtype=float) for p in cf.get_point_coord_for_each_dim(cg.levelvector)[0]]
+            full = [len(p) for p in P]
+            inner = [n - 2 for n in full]
+            if sv.size == int(np.prod(full)):
+                V = sv.reshape(full)
+            elif sv.size == int(np.prod(inner)):
+                V = np.zeros(full)
+                V[tuple(slice(1, -1) for _ in full)] = sv.reshape(inner)
+            else:
+                e = RuntimeError("component grid %s publishes %d coefficients for point lists of lengths %s" % (lv, sv.size, full))
+                e.harness = True
+                raise e
+            tot += float(cg.coefficient) * RegularGridInterpolator(P, V, method="linear", bounds_error=False, fill_value=None)(pts)
+        return tot
+
+    def _execute(self, sched, ctx):
         D = self.D
         c = sched["config"]
-        sig = {"learn": c["learn"], "one_vs_others": c["one_vs_others"]}
+        sig = {"learn": c["learn"], "one_vs_others": c["one_vs_others"], "threshold_moved": c.get("threshold") is not None}
         ctx.exc_sig = dict(sig)
         X, y, cent = make_data(c["data_seed"], c["n"], c["dim"], c["k"], unl=c["unl"])
         if len(set(int(v) for v in y if v >= 0)) < 2:
@@ -144,10 +201,21 @@ class C19(Check):
 
         def check_classes(got, S, what):
             dens = densities(S)
+            if len(S):
+                # the densities the object's own interpolation reports must be the densities of the published scheme and
+                # coefficients (an interpolation path that answers consistently wrong would otherwise vouch for itself)
+                ind = np.array([self.independent_density(cf, S, c["learn"]) for cf in cl.get_density_estimation_results()[0]])
+                scale = 1.0 + float(np.max(np.abs(ind)))
+                if ind.shape != dens.shape or not np.all(np.abs(ind - dens) <= 1e-8 * scale):
+                    j = int(np.argmax(np.max(np.abs(ind - dens), axis=0)))
+                    ctx.violate("density_is_interpolant_of_published_coefficients", dict(sig, call=what), "%s: at scaled position %s the learned objects report densities %s, multilinear interpolation of their published coefficients gives %s" % (
+                        what, np.asarray(S)[j].tolist(), dens[:, j].tolist(), ind[:, j].tolist()))
+                ctx.ok("density_is_interpolant_of_published_coefficients", len(S))
+                dens = ind
             for i, g in enumerate(got):
                 col = dens[:, i]
                 mx = col.max()
-                ok = 0 <= int(g) < nclass and col[int(g)] >= mx - 1e-12 * (1.0 + abs(mx))
+                ok = 0 <= int(g) < nclass and col[int(g)] >= mx - 1e-9 * (1.0 + abs(mx))
                 if not ok:
                     ctx.violate("class_is_argmax_density", dict(sig, call=what), "%s: sample %s (scaled %s) got class %r, densities %s" % (
                         what, i, S[i].tolist(), g, col.tolist()))
